@@ -193,3 +193,25 @@ def _(c):
     c.ground = lambda: [{"calc": calc_of(0), "y": y} for y in range(2000, 2003)]
     c.allow_mutation = cache_ok
     c.returns(lambda a, r: r[2] == 367)
+
+
+# ------------------------------------------------------------------------------------------ compare() is the day-number order
+def _mk_compare(o: int) -> None:
+    @contract(H + "compare_chain", "C01", "C12", name=f"[{cal_name(o)}] compare() agrees with the day-number order on every month start/end of every year", ground_chunks=2 if o not in (17, 18) else 1)
+    def _(c):
+        c.arg("calc", Const(lambda: calc_of(o))).arg("y", Int())
+        c.ground = lambda: [{"calc": calc_of(o), "y": y} for y in _years(o, 0, 0)]
+        c.allow_mutation = cache_ok
+        c.ground_interp_stride = 1009
+
+        def post(a, r):
+            ok = True
+            for dn, ab, ba, aa in items(r):
+                ok = ok and aa == 0 and ((dn > 0 and ab < 0 and ba > 0) or (dn == 0 and ab == 0 and ba == 0))
+            return ok and len(items(r)) >= 2
+
+        c.returns(post)
+
+
+for _o in DISTINCT:
+    _mk_compare(_o)
